@@ -232,8 +232,33 @@ fn seed32(seed: u64, prop: &str, sub: &str, shard: u64) -> [u8; 32] {
     out
 }
 
+thread_local! {
+    /// property the current process is working on (for attributing library panics)
+    static CURRENT_PROP: std::cell::RefCell<String> = std::cell::RefCell::new(String::new());
+    /// source location of the most recent panic on this thread
+    static LAST_PANIC_AT: std::cell::RefCell<String> = std::cell::RefCell::new(String::new());
+}
+
 pub fn silence_panics() {
-    std::panic::set_hook(Box::new(|_| {}));
+    std::panic::set_hook(Box::new(|info| {
+        let at = info.location().map(|l| format!("{}:{}", l.file(), l.line())).unwrap_or_default();
+        LAST_PANIC_AT.with(|c| *c.borrow_mut() = at);
+    }));
+}
+
+/// A panic that escaped a sub: the library's fault (a violation: no entry point may panic) or the
+/// harness' own (inconclusive)? Decided by where it was raised: harness sources are compiled with
+/// relative paths (`src/...`) or live under the verification root; everything else is /repo or std
+/// code running on the library's behalf.
+fn uncaught_panic(prop: &str, p: Box<dyn std::any::Any + Send>) -> Fail {
+    let msg = crate::connrun::panic_msg(p);
+    let at = LAST_PANIC_AT.with(|c| c.borrow().clone());
+    let harness = at.is_empty() || at.starts_with("src/") || at.contains("/verif/") || at.contains("/harness/");
+    if harness {
+        Fail::new("harness-panic", format!("uncaught panic at {}: {}", at, msg))
+    } else {
+        Fail::new(&format!("{}:library-panic", prop), format!("the library panicked at {}: {}", at, msg))
+    }
 }
 
 fn run_case(
@@ -256,7 +281,7 @@ fn run_case(
     let r = std::panic::catch_unwind(std::panic::AssertUnwindSafe(|| f(input, &mut obs)));
     let r = match r {
         Ok(r) => r,
-        Err(p) => Err(Fail::new("harness-panic", format!("uncaught panic: {}", crate::connrun::panic_msg(p)))),
+        Err(p) => Err(uncaught_panic(&CURRENT_PROP.with(|c| c.borrow().clone()), p)),
     };
     if counting {
         if obs.excluded {
@@ -291,6 +316,7 @@ pub fn render_case(f: SubFn, input: &Input) -> String {
 
 pub fn worker_main(prop: &PropDef, tier: Tier, seed: u64, shard: u64, nshards: u64, smallbuf: bool, out: &Path) -> i32 {
     silence_panics();
+    CURRENT_PROP.with(|c| *c.borrow_mut() = prop.id.to_string());
     load_known();
     let watch = Arc::new(Watch { progress: AtomicU64::new(0), current: Mutex::new((String::new(), None)) });
     // watchdog: a case normally takes well under a second
@@ -382,7 +408,7 @@ pub fn worker_main(prop: &PropDef, tier: Tier, seed: u64, shard: u64, nshards: u
                         let fl = match r {
                             Ok(Err(fl)) => fl,
                             Ok(Ok(())) => last_fail.borrow().clone().unwrap_or(Fail::new("flaky", "failure did not reproduce on the minimal input".into())),
-                            Err(p) => Fail::new("harness-panic", crate::connrun::panic_msg(p)),
+                            Err(p) => uncaught_panic(prop.id, p),
                         };
                         violations.push(Violation { sub: job.sub.to_string(), sig: fl.sig, msg: fl.msg, input: minimal, render: obs.render });
                     } else if let Err(TestError::Abort(r)) = res {
@@ -520,7 +546,7 @@ pub fn parent_main(prop: &PropDef, tier: Tier, seed: u64) -> i32 {
                             let fl = match r {
                                 Ok(Ok(())) => None,
                                 Ok(Err(fl)) => Some(fl),
-                                Err(pn) => Some(Fail::new("harness-panic", crate::connrun::panic_msg(pn))),
+                                Err(pn) => Some(uncaught_panic(prop.id, pn)),
                             };
                             if let Some(fl) = fl {
                                 violations.push(json!({"sub": sub, "sig": fl.sig, "msg": format!("regression input {} fails: {}", p.display(), fl.msg), "input": input.to_json(), "render": obs.render, "smallbuf": false}));
@@ -829,7 +855,7 @@ pub fn replay_main(props: &[PropDef], file: &Path, quiet: bool) -> i32 {
     let fl = match r {
         Ok(Ok(())) => None,
         Ok(Err(fl)) => Some(fl),
-        Err(p) => Some(Fail::new("harness-panic", crate::connrun::panic_msg(p))),
+        Err(p) => Some(uncaught_panic(pid, p)),
     };
     if !quiet {
         println!("{}", obs.render);
